@@ -137,10 +137,17 @@ type tieConfig struct {
 	x0         []float64
 	locs       *mat.Dense
 	stopLogDet float64
+	// reuse: every run of the configuration uses the SAME Method value
+	// (re-seeded source), after runs with other Concurrent settings, instead
+	// of a fresh one: Init must reset it completely.
+	reuse  bool
+	stored optimize.Method
 }
 
+func (tc *tieConfig) methodValue() optimize.Method { return tc.stored }
+
 func (tc *tieConfig) String() string {
-	return fmt.Sprintf("%s objective=%s dim=%d population=%d MajorIterations=%d rows=%d source-seed=%#x", tc.method, tc.obj.name, tc.dim, tc.pop, tc.iters, tc.rows, tc.srcSeed)
+	return fmt.Sprintf("%s objective=%s dim=%d population=%d MajorIterations=%d rows=%d source-seed=%#x method-value-reused=%v", tc.method, tc.obj.name, tc.dim, tc.pop, tc.iters, tc.rows, tc.srcSeed, tc.reuse)
 }
 
 // run executes one Minimize call of the configuration.
@@ -168,13 +175,26 @@ func (tc *tieConfig) run(conc int, salt uint64, withLedger bool) *tieResult {
 	}
 	var method optimize.Method
 	st := &optimize.Settings{Concurrent: conc, Converger: optimize.NeverTerminate{}, MajorIterations: tc.iters, FuncEvaluations: 5000}
-	switch tc.method {
-	case "CmaEsChol", "CmaEsChol-ForgetBest":
-		method = &optimize.CmaEsChol{Src: vrt.NewRand(tc.srcSeed), Population: tc.pop, StopLogDet: tc.stopLogDet, ForgetBest: tc.method == "CmaEsChol-ForgetBest"}
-	case "ListSearch":
-		method = &optimize.ListSearch{Locs: tc.locs}
-	case "GuessAndCheck":
-		method = &optimize.GuessAndCheck{Rander: tieRander{vrt.NewRand(tc.srcSeed), led}}
+	if tc.reuse && tc.method != "" && tc.methodValue() != nil {
+		method = tc.methodValue()
+		switch m := method.(type) {
+		case *optimize.CmaEsChol:
+			m.Src = vrt.NewRand(tc.srcSeed)
+		case *optimize.GuessAndCheck:
+			m.Rander = tieRander{vrt.NewRand(tc.srcSeed), led}
+		}
+	} else {
+		switch tc.method {
+		case "CmaEsChol", "CmaEsChol-ForgetBest":
+			method = &optimize.CmaEsChol{Src: vrt.NewRand(tc.srcSeed), Population: tc.pop, StopLogDet: tc.stopLogDet, ForgetBest: tc.method == "CmaEsChol-ForgetBest"}
+		case "ListSearch":
+			method = &optimize.ListSearch{Locs: tc.locs}
+		case "GuessAndCheck":
+			method = &optimize.GuessAndCheck{Rander: tieRander{vrt.NewRand(tc.srcSeed), led}}
+		}
+		if tc.reuse {
+			tc.stored = method
+		}
 	}
 	res := &tieResult{}
 	var r *optimize.Result
@@ -241,6 +261,7 @@ func runMinimizeTies(c *vrt.Ctx, race bool) {
 			tc.srcSeed = r.Uint64() | 1
 			tc.x0 = r.Floats(tc.dim, func() float64 { return r.Uniform(-1, 1) })
 			tc.stopLogDet = math.NaN()
+			tc.reuse = r.Bool()
 			switch tc.method {
 			case "CmaEsChol", "CmaEsChol-ForgetBest":
 				tc.pop = r.PickInt(0, 6, 12)
